@@ -108,4 +108,11 @@ def canonicals : Nat → State → List Rat → List Rat × State
 /-- generator reached from `seed` after `skip` 32-bit draws -/
 def mk (sd skip : Nat) : State := discard skip (seed (UInt32.ofNat sd))
 
+/-- a CRAFTED state as the C18 harness builds it through `operator>>`: `seed`, one draw (table regenerated, read position 1),
+    then the two state words consumed by the `k`-th canonical uniform from there set to 0 for every listed `k`
+    (`temper 0 = 0`, so that uniform is exactly 0) -/
+def zeroed (sd : Nat) (ks : List Nat) : State :=
+  let s := (next (seed (UInt32.ofNat sd))).2
+  { s with mt := ks.foldl (fun a k => (a.set! (s.idx + 2 * k) 0).set! (s.idx + 2 * k + 1) 0) s.mt }
+
 end Lp.MT
